@@ -26,7 +26,7 @@ pub const DEF: PropDef = PropDef {
     id: "C17",
     run,
     oracle,
-    rule: "configurations x inputs: the harness is built with and without the parse_unknown_fields feature from the same sources (a failing feature-off build is itself the violation, the compiler diagnostic is the replay file). Class K (known-only): conformant V9/IPFIX/V5/V7 histories (C04/C05 plans, wide mode) whose templates are rewritten to contain only field numbers the library types (enterprise elements kept: they never reach the unknown-field helper); both builds generate the same seeded cases and emit, per case, a digest of (complete Debug rendering of every result, to_be_bytes output or error text of every element, common view of every element); the two digest streams must be identical, and both builds additionally compare every case with the independent reference decode (C04/C05 oracle). Class U (unknown): the same plans with >= 1 untyped field number forced into every plain template; in the feature-off build no record may be reported for such a template (V9: the data flowset carries no records; IPFIX: no data set of that id), nothing may panic, cache = model; in the feature-on build the case must equal the reference decode. non-trivial = class K with >= 1 data record, class U with the untyped field neither first nor last in some template that received data; distinct by digest.",
+    rule: "configurations x inputs: the harness is built with and without the parse_unknown_fields feature from the same sources (a failing feature-off build is itself the violation, the compiler diagnostic is the replay file). Class K (known-only): conformant V9/IPFIX/V5/V7 histories (C04/C05 plans, wide mode) whose templates are rewritten to contain only field numbers the library types (enterprise elements kept: they never reach the unknown-field helper); both builds generate the same seeded cases and emit, per case, a digest of (complete Debug rendering of every result, to_be_bytes output or error text of every element, common view of every element); the two digest streams must be identical, and both builds additionally compare every case with the independent reference decode (C04/C05 oracle). Class U (unknown): the same plans with >= 1 untyped field number forced into every plain template; in the feature-off build no record may be reported for such a template (V9: the data flowset carries no records; IPFIX: no data set of that id), nothing may panic, cache = model; in the feature-on build the case must equal the reference decode. Class W (odd widths): class K plans in which a third of the fields are re-declared with widths outside the envelope (5, 6, 7, 9, 12, 17, 20, 33, 100, 3 bytes): no reference reading exists, the two builds must still agree on every observable (digest of results, re-export, common view, caches). non-trivial = class K with >= 1 data record, every class W case, class U with the untyped field neither first nor last in some template that received data; distinct by digest.",
     assumptions: &[
         "V9 options data is kept as raw bytes per field in both configurations (no typed decode), so untyped fields are forced into plain templates only",
         "both arms use the same proptest version and seeds, hence the same cases",
@@ -72,8 +72,21 @@ fn cfg() -> StreamCfg {
     }
 }
 
+/// class W: only elements the library knows, but declared with widths outside the conformant
+/// envelope (5, 7, 17, 33 ... bytes for numbers, 3 for an address): what the library does
+/// with them is its own business, but it must be the same in both builds
+fn odd_widths(d: &mut Def, sel: u8) {
+    const ODD: [u16; 10] = [5, 6, 7, 9, 12, 17, 20, 33, 100, 3];
+    for (i, f) in d.fields.iter_mut().enumerate() {
+        if f.ent.is_none() && f.len != VARLEN && (sel as usize + i * 5) % 3 == 0 {
+            f.len = ODD[(sel as usize / 3 + i) % ODD.len()];
+        }
+    }
+}
+
 fn class_strategy(class: &str) -> proptest::strategy::BoxedStrategy<Case> {
     let unknown = class == "U";
+    let odd = class == "W";
     (gen::stream(cfg()), proptest::prelude::any::<u8>())
         .prop_map(move |(mut p, sel)| {
             for (proto, pool) in [(Proto::V9, &mut p.pool.v9), (Proto::Ipfix, &mut p.pool.ipfix)] {
@@ -84,6 +97,9 @@ fn class_strategy(class: &str) -> proptest::strategy::BoxedStrategy<Case> {
                         } else {
                             known_only(proto, d);
                         }
+                        if odd {
+                            odd_widths(d, sel);
+                        }
                     }
                 }
             }
@@ -93,6 +109,9 @@ fn class_strategy(class: &str) -> proptest::strategy::BoxedStrategy<Case> {
             let b = gen::build(&p, &BuildOpts { count_by_flowsets: true, multi_tpl_ipfix: false, ..BuildOpts::WIDE });
             let mut c = Case { calls: b.calls, ..Case::single(vec![]) };
             c.params.insert("class_unknown".into(), unknown as i64);
+            if odd {
+                c.params.insert("class_odd_widths".into(), 1);
+            }
             c
         })
         .boxed()
@@ -287,6 +306,13 @@ fn oracle_unknown_off(case: &Case) -> Outcome {
 
 /// the oracle of the running build (replay uses the feature-on build)
 pub fn oracle(case: &Case) -> Outcome {
+    if case.param("class_odd_widths") != 0 {
+        // outside the conformant envelope: only the cross-build comparison applies
+        let mut o = Outcome::pass();
+        o.nontrivial = true;
+        o.label("known-elements-with-odd-widths");
+        return o;
+    }
     let unknown = case.param("class_unknown") != 0;
     if !PUF && unknown {
         return oracle_unknown_off(case);
@@ -321,7 +347,7 @@ pub fn arm_main(class: &str, seed: u64, shard: u64, n: usize) {
                 return;
             }
         }
-        if class == "K" {
+        if class == "K" || class == "W" {
             println!("D {:016x}", observe_digest(case));
         } else {
             println!("U {}", o.nontrivial as u8);
@@ -380,7 +406,7 @@ pub fn run(ctx: &Ctx) {
     }
     ctx.stats.lock().unwrap().phases.push(json!({"phase": "feature-off build", "result": "ok"}));
     ctx.replay_findings(&oracle);
-    for (class, total) in [("K", ctx.n(60_000, 6_000_000)), ("U", ctx.n(60_000, 6_000_000))] {
+    for (class, total) in [("K", ctx.n(60_000, 6_000_000)), ("U", ctx.n(60_000, 6_000_000)), ("W", ctx.n(30_000, 2_000_000))] {
         if ctx.failed() {
             break;
         }
@@ -405,7 +431,7 @@ pub fn run(ctx: &Ctx) {
                                 break;
                             }
                             let o = ctx.eval(c, &oracle);
-                            let d = if class == "K" && o.is_pass() { observe_digest(c) } else { 0 };
+                            let d = if (class == "K" || class == "W") && o.is_pass() { observe_digest(c) } else { 0 };
                             on.push((o, d));
                         }
                         let Ok(child) = child else {
@@ -471,7 +497,7 @@ pub fn run(ctx: &Ctx) {
             }
         });
         ctx.stats.lock().unwrap().phases.push(json!({
-            "phase": format!("class {} ({}), both builds", class, if class == "K" { "known-only templates, cross-build digest + reference decode" } else { "templates with an untyped field" }),
+            "phase": format!("class {} ({}), both builds", class, match class { "K" => "known-only templates, cross-build digest + reference decode", "W" => "known elements declared with odd widths, cross-build digest only", _ => "templates with an untyped field" }),
             "cases": per * shards, "shards": shards, "wall_s": t0.elapsed().as_secs_f64()
         }));
     }
